@@ -402,7 +402,7 @@ class SQLLineageHolder(ColumnLineageMixin):
                     g = nx.relabel_nodes(g, {table_old: table_new})
                     if g.has_edge(table_new, table_new):
                         g.remove_edge(table_new, table_new)
-                    if g.degree[table_new] == 0:
+                    if g.has_node(table_new) and g.degree[table_new] == 0:
                         g.remove_node(table_new)
             else:
                 read, write = holder.read, holder.write
